@@ -32,10 +32,15 @@ RULE = ("schema-conforming trees drawn from the XSD value spaces (patterns via a
 TRUST = c03.TRUST + ["libxml2 is assumed to implement the XSD subset semantics formalised by `matchSeq` / `matchGroups` (sampled by the content-model stream)"]
 ASSUMPTIONS = [
     "the content-model theorems cover types whose content model is built from sequence / all groups of element particles and element-level choices; wildcards (xs:any) are covered by the libxml2 oracle only",
+    "known finding C02:nonfinite-float-lexical: INF / -INF / NaN are drawn as conforming values and reported under that key; repair proposed, not applied because it edits generated code that regeneration (C20) reverts",
     "known finding C02:GateKS:interleaved-group: a repeated choice over the (forwardTransition, reverseTransition) sequence group cannot be written member-grouped",
-    "numeric lexical spaces of xs:float/xs:double are what CPython float() accepts and repr/%.15f produce; non-finite floats are not generated",
+    "numeric lexical spaces of xs:float/xs:double are what CPython float() accepts and repr/%.15f produce for finite values",
     "the unit-less Nml2Quantity with a value ending in a line feed: accepted by CPython's greedy engine, not covered by c02_facet_today (priority order of re not modelled), sampled",
 ]
+
+
+import re
+NONFINITE_MSG = re.compile(r"'-?(inf|nan)' is not a valid value of the atomic type")
 
 
 def regenerate(ctx):
@@ -93,6 +98,8 @@ def check_valid(ctx, ir, mod, cls, o, lines, pending, corpus_key=None, history=N
     if not okx:
         if corpus_key:
             key = corpus_key
+        elif NONFINITE_MSG.search(msg):
+            key = "C02:nonfinite-float-lexical"
         elif "Transition" in msg and "GateKS" in text[:80]:
             key = "C02:GateKS:interleaved-group"
         elif msg.startswith("not well-formed"):
@@ -239,6 +246,8 @@ def doc_stream(ctx, ir, mod, gen, slot_tab):
                 return False
             if not sch.validate(doc):
                 key = "C02:past-tree-invalid-document:" + history["moves"][0]["cls"] if history else "C02:schema-invalid-document"
+                if NONFINITE_MSG.search(str(sch.error_log.last_error)):
+                    key = "C02:nonfinite-float-lexical"
                 ctx.fail(key, "written document rejected: %s" % str(sch.error_log.last_error)[:250], case)
                 return False
             v, vm = c03.real_validate(d)
@@ -298,17 +307,33 @@ def morphology_with_past(mod):
 def run(ctx):
     ir = getattr(ctx, "ir", None) or bindgen.IR()
     import neuroml.nml.nml as mod
-    gen = facetgen.ValidGen2(ir, ctx.rng, max_depth=3)
+    gen = facetgen.ValidGen2(ir, ctx.rng, max_depth=3, nonfinite=True)
     slot_tab = facetgen.slot_table(gen)
     lines, pending = [], []
     # corpus: the known finding, the escaping cases, a tree with a past
     check_valid(ctx, ir, mod, "GateKS", gateks_two_pairs(mod), lines, pending, corpus_key="C02:GateKS:interleaved-group")
     for cls, o, bucket in corpus_special(mod):
         check_valid(ctx, ir, mod, cls, o, lines, pending, bucket="corpus:" + bucket)
-    # known finding: non-finite members of the xs:double value space are written in Python's spelling
+    # reproduces known finding C02:nonfinite-float-lexical (on a tree with the proposed repair: regression cases): INF,
+    # -INF, NaN are members of the xs:double / xs:float value spaces; they must be written in the schema's spelling and
+    # read back as themselves (xs:double member x, xs:float member weight)
     for v in (float("inf"), float("-inf"), float("nan")):
-        check_valid(ctx, ir, mod, "Point3DWithDiam", mod.Point3DWithDiam(x=v, y=0.0, z=0.0, diameter=1.0), lines, pending,
-                    corpus_key="C02:nonfinite-float-lexical", bucket="corpus:nonfinite")
+        for cls, o, member in (("Point3DWithDiam", mod.Point3DWithDiam(x=v, y=0.0, z=0.0, diameter=1.0), "x"),
+                               ("ConnectionWD", mod.ConnectionWD(id=0, pre_cell_id="../p/0/c", post_cell_id="../p/1/c", weight=v, delay="1ms"), "weight")):
+            root, text, good = check_valid(ctx, ir, mod, cls, o, lines, pending, corpus_key="C02:nonfinite-float-lexical",
+                                           bucket="corpus:nonfinite")
+            if good:
+                try:
+                    o2 = getattr(mod, cls).factory()
+                    o2.build(root)
+                    w = getattr(o2, member)
+                    same = isinstance(w, float) and (w == v or (w != w and v != v))
+                except Exception as e:
+                    w, same = repr(e), False
+                ctx.count("corpus:nonfinite-roundtrip")
+                if not same:
+                    ctx.fail("C02:nonfinite-roundtrip", "%s.%s = %r is written as valid XML but read back as %r" % (cls, member, v, w),
+                             {"root": cls, "xml": text[:2000]})
     m, hist = morphology_with_past(mod)
     check_valid(ctx, ir, mod, "Morphology", m, lines, pending, history=hist, bucket="corpus:past-tree")
     per = ctx.n(2, 20) * ctx.search_mult
@@ -335,7 +360,9 @@ def run(ctx):
                 ctx.count("gen-failed")
                 continue
             root, text, good = check_valid(ctx, ir, mod, cls, o, lines, pending)
-            if i == 0:
+            if i == 0 and (good or not NONFINITE_MSG.search(bindgen.xsd_verdict(o, cls)[1])):
+                # (a tree holding a non-finite float is written schema-invalid today — known finding — and would make
+                # libxml2 reject every child order)
                 content_stream(ctx, ir, cls, root, lines, pending, ctx.rng)
             if good:
                 past_tree(ctx, ir, mod, cls, text, slot_tab, lines, pending, ctx.rng)
